@@ -1,29 +1,65 @@
 import FqModel.Container
 /-!
   C15 — tar numeric fields in base-256 (GNU / star / pax writers: first byte 0x80, then the value big endian; REQUIRED for a
-  member of 8 GiB or more, allowed for any value).  `format/tar/tar.go:57-60` only knows octal text: the size field fails
-  `TryStrSymParseUint(8)` and the decode stops with `could not decode size`.
+  member of 8 GiB or more, allowed for any value).
+
+  The current decoder (`fieldNumber` in `format/tar/tar.go`, model `tarNum` in `Container.lean`) reads them.  The ORIGINAL
+  decoder (before the repair `fix: tar: decode base-256 …`) only knew octal text: the size field failed
+  `TryStrSymParseUint(8)` and the decode stopped with `could not decode size`.  It is kept here as `tarOld…` for the
+  regression theorem.
 -/
 namespace FqModel.Container
 
-/-- a 12 byte numeric field in base-256 -/
-def b256Field (n : Nat) : Bytes := 0x80 :: toBE 11 n
-
-/-- header like `writeTarHeader`, the size field given as raw bytes -/
-def writeTarHeaderSize (m : TarMember) (sizeField : Bytes) : Bytes :=
-  padNul 100 m.name ++ octField 8 m.mode ++ octField 8 m.uid ++ octField 8 m.gid ++ sizeField ++
-  octField 12 m.mtime ++ octField 8 m.chksum ++ [m.typeflag] ++ padNul 100 m.linkname ++ padNul 6 ustar ++
-  octField 2 m.version ++ padNul 32 m.uname ++ padNul 32 m.gname ++ octField 8 m.devmajor ++ octField 8 m.devminor ++
-  padNul 155 m.pfx ++ List.replicate 12 0
-
-/-- one member whose size is written in base-256, then the end marker -/
-def writeTarB256 (m : TarMember) : Bytes :=
-  writeTarHeaderSize m (b256Field m.data.length) ++ m.data ++ List.replicate (blockPad m.data.length) 0 ++ List.replicate 1024 0
-
-/-- what a reader of the extension recovers from the field -/
+/-- what a reader of the extension recovers from a field -/
 def parseB256 (f : Bytes) : Option Nat :=
   match f with
   | b :: r => if b = 0x80 then some (beNat r) else none
   | [] => none
+
+/-- the ORIGINAL `file` struct decoder (tar.go:49-87 before the repair): every numeric field is octal text -/
+def tarOldEntry (pos : Nat) (bs : Bytes) : Option (TarEntry × Bytes) := do
+  let (name, bs) ← takeN 100 bs
+  let (mode, bs) ← takeN 8 bs
+  let (uid, bs) ← takeN 8 bs
+  let (gid, bs) ← takeN 8 bs
+  let (size, bs) ← takeN 12 bs
+  let size ← parseOct (cstr size)             -- `could not decode size`
+  let (mtime, bs) ← takeN 12 bs
+  let (chksum, bs) ← takeN 8 bs
+  let (typeflag, bs) ← takeN 1 bs
+  let (linkname, bs) ← takeN 100 bs
+  let (magic, bs) ← takeN 6 bs
+  if trimCut magic ≠ ustar then none else
+  let (version, bs) ← takeN 2 bs
+  let (uname, bs) ← takeN 32 bs
+  let (gname, bs) ← takeN 32 bs
+  let (devmajor, bs) ← takeN 8 bs
+  let (devminor, bs) ← takeN 8 bs
+  let (pfx, bs) ← takeN 155 bs
+  let hp := blockPad (pos + 500)
+  let (_, bs) ← takeN hp bs
+  let (data, bs) ← takeN size bs
+  let dp := blockPad (pos + 500 + hp + size)
+  let (_, bs) ← takeN dp bs
+  pure ({ name := trimCut name, mode := parseOct (cstr mode), uid := parseOct (cstr uid), gid := parseOct (cstr gid),
+          size := size, mtime := parseOct (cstr mtime), chksum := parseOct (cstr chksum), typeflag := trimCut typeflag,
+          linkname := trimCut linkname, magic := trimCut magic, version := parseOct (cstr version),
+          uname := trimCut uname, gname := trimCut gname, devmajor := parseOct (cstr devmajor),
+          devminor := parseOct (cstr devminor), pfx := trimCut pfx, hpad := hp, data := data, dpad := dp }, bs)
+
+def tarOldLoop : Nat → Nat → Bytes → List TarEntry → TarResult
+  | 0, _, _, acc => ⟨acc.reverse, none, true⟩
+  | fuel+1, pos, bs, acc =>
+    if bs.isEmpty then ⟨acc.reverse, none, false⟩ else
+    match tarOldEntry pos bs with
+    | none => ⟨acc.reverse, none, true⟩
+    | some (e, rest) =>
+      if rest.length ≥ 1024 ∧ allZero (rest.take 1024) then
+        ⟨(e :: acc).reverse, some (1024 + 512 * zeroBlocks (rest.length / 512) (rest.drop 1024)), false⟩
+      else tarOldLoop fuel (pos + (bs.length - rest.length)) rest (e :: acc)
+
+def tarOldParse (bs : Bytes) : TarResult :=
+  let r := tarOldLoop (bs.length / 500 + 1) 0 bs []
+  if r.files.isEmpty then { r with err := true } else r
 
 end FqModel.Container
